@@ -73,13 +73,14 @@ theorem lookup_divmod : lookupProg "numeric_divmod" = some (2, divmodProg) := by
 
 /-- `_binary_op(session, a, b, sym)`: ONE new NumericMemField holding `sym(a', b')` under the name of numpy's result dtype;
     every other object, and every dataframe, is as it was -/
-theorem run_binary (np : Numpy α) (sym : String) (w : World α) (a b : Val α) (x y : α) (n : String)
+theorem run_binary (np : Numpy α) (sym : String) (w : World α) (a b : Val α) (x y : α) (n : String) (hw : w.wf)
     (ha : unwrapVal np w a = .ok x) (hb : unwrapVal np w b = .ok y)
     (hn : dtypeToStr (np.dtypeOf (np.call sym [x, y])) = some n) :
     ∃ w', runProg np sym binaryProg w [a, b] = .ok (w', [w.next]) ∧
       w'.get? w.next = some ⟨"NumericMemField", n, some (np.call sym [x, y])⟩ ∧
-      (∀ id, id ≠ w.next → w'.get? id = w.get? id) ∧ w'.frames = w.frames ∧ w'.next = w.next + 1 := by
+      (∀ id, id ≠ w.next → w'.get? id = w.get? id) ∧ w'.frames = w.frames ∧ w'.next = w.next + 1 ∧ w'.wf := by
   simp [binaryProg, runProg, step, getArrs, getFlds, ha, hb, hn]
+  refine ⟨?_, World.wf_put (World.wf_alloc hw _) (by simp) _⟩
   intro id h
   have : ¬ w.next = id := fun e => h e.symm
   simp [this]
@@ -91,30 +92,100 @@ theorem run_binary_unsupported (np : Numpy α) (sym : String) (w : World α) (a 
     runProg np sym binaryProg w [a, b] = .error (.valueError "Unsupported dtype") := by
   simp [binaryProg, runProg, step, getArrs, ha, hb, hn]
 
-theorem run_unary (np : Numpy α) (sym : String) (w : World α) (a : Val α) (x : α) (n : String)
+theorem run_unary (np : Numpy α) (sym : String) (w : World α) (a : Val α) (x : α) (n : String) (hw : w.wf)
     (ha : unwrapVal np w a = .ok x)
     (hn : dtypeToStr (np.dtypeOf (np.call sym [x])) = some n) :
     ∃ w', runProg np sym unaryProg w [a] = .ok (w', [w.next]) ∧
       w'.get? w.next = some ⟨"NumericMemField", n, some (np.call sym [x])⟩ ∧
-      (∀ id, id ≠ w.next → w'.get? id = w.get? id) ∧ w'.frames = w.frames ∧ w'.next = w.next + 1 := by
+      (∀ id, id ≠ w.next → w'.get? id = w.get? id) ∧ w'.frames = w.frames ∧ w'.next = w.next + 1 ∧ w'.wf := by
   simp [unaryProg, runProg, step, getArrs, getFlds, ha, hn]
+  refine ⟨?_, World.wf_put (World.wf_alloc hw _) (by simp) _⟩
   intro id h
   have : ¬ w.next = id := fun e => h e.symm
   simp [this]
 
 /-- `numeric_divmod(session, a, b)`: TWO new NumericMemFields, quotient then remainder of ONE `np.divmod(a', b')` call -/
-theorem run_divmod (np : Numpy α) (fn : String) (w : World α) (a b : Val α) (x y : α) (n1 n2 : String)
+theorem run_divmod (np : Numpy α) (fn : String) (w : World α) (a b : Val α) (x y : α) (n1 n2 : String) (hw : w.wf)
     (ha : unwrapVal np w a = .ok x) (hb : unwrapVal np w b = .ok y)
     (hn1 : dtypeToStr (np.dtypeOf (np.call2 "np.divmod" [x, y]).1) = some n1)
     (hn2 : dtypeToStr (np.dtypeOf (np.call2 "np.divmod" [x, y]).2) = some n2) :
     ∃ w', runProg np fn divmodProg w [a, b] = .ok (w', [w.next, w.next + 1]) ∧
       w'.get? w.next = some ⟨"NumericMemField", n1, some (np.call2 "np.divmod" [x, y]).1⟩ ∧
       w'.get? (w.next + 1) = some ⟨"NumericMemField", n2, some (np.call2 "np.divmod" [x, y]).2⟩ ∧
-      (∀ id, id < w.next → w'.get? id = w.get? id) ∧ w'.frames = w.frames ∧ w'.next = w.next + 2 := by
+      (∀ id, id < w.next → w'.get? id = w.get? id) ∧ w'.frames = w.frames ∧ w'.next = w.next + 2 ∧ w'.wf := by
   simp [divmodProg, runProg, step, getArrs, getFlds, ha, hb, hn1, hn2]
-  intro id h
-  have h1 : ¬ w.next = id := by omega
-  have h2 : ¬ w.next + 1 = id := by omega
-  simp [h1, h2]
+  refine ⟨?_, ?_⟩
+  · intro id h
+    have h1 : ¬ w.next = id := by omega
+    have h2 : ¬ w.next + 1 = id := by omega
+    simp [h1, h2]
+  · exact World.wf_put (World.wf_alloc (World.wf_put (World.wf_alloc hw _) (by simp) _) _) (by simp) _
+
+/-! ### whatever a helper body returns, it has written to no object that existed before the call -/
+
+theorem run_binary_frame (np : Numpy α) (sym : String) (w w' : World α) (a b : Val α) (ids : List Nat)
+    (h : runProg np sym binaryProg w [a, b] = .ok (w', ids)) :
+    (∀ id, id < w.next → w'.get? id = w.get? id) ∧ w'.frames = w.frames := by
+  cases ha : unwrapVal np w a with
+  | error e => simp [binaryProg, runProg, step, ha] at h
+  | ok x =>
+    cases hb : unwrapVal np w b with
+    | error e => simp [binaryProg, runProg, step, ha, hb] at h
+    | ok y =>
+      cases hn : dtypeToStr (np.dtypeOf (np.call sym [x, y])) with
+      | none => simp [binaryProg, runProg, step, getArrs, ha, hb, hn] at h
+      | some n =>
+        simp [binaryProg, runProg, step, getArrs, getFlds, ha, hb, hn] at h
+        obtain ⟨rfl, -⟩ := h
+        refine ⟨?_, by simp⟩
+        intro id hid
+        have : ¬ w.next = id := by omega
+        simp [this]
+
+theorem run_unary_frame (np : Numpy α) (sym : String) (w w' : World α) (a : Val α) (ids : List Nat)
+    (h : runProg np sym unaryProg w [a] = .ok (w', ids)) :
+    (∀ id, id < w.next → w'.get? id = w.get? id) ∧ w'.frames = w.frames := by
+  cases ha : unwrapVal np w a with
+  | error e => simp [unaryProg, runProg, step, ha] at h
+  | ok x =>
+    cases hn : dtypeToStr (np.dtypeOf (np.call sym [x])) with
+    | none => simp [unaryProg, runProg, step, getArrs, ha, hn] at h
+    | some n =>
+      simp [unaryProg, runProg, step, getArrs, getFlds, ha, hn] at h
+      obtain ⟨rfl, -⟩ := h
+      refine ⟨?_, by simp⟩
+      intro id hid
+      have : ¬ w.next = id := by omega
+      simp [this]
+
+theorem run_divmod_frame (np : Numpy α) (fn : String) (w w' : World α) (a b : Val α) (ids : List Nat)
+    (h : runProg np fn divmodProg w [a, b] = .ok (w', ids)) :
+    (∀ id, id < w.next → w'.get? id = w.get? id) ∧ w'.frames = w.frames := by
+  cases ha : unwrapVal np w a with
+  | error e => simp [divmodProg, runProg, step, ha] at h
+  | ok x =>
+    cases hb : unwrapVal np w b with
+    | error e => simp [divmodProg, runProg, step, ha, hb] at h
+    | ok y =>
+      cases hn1 : dtypeToStr (np.dtypeOf (np.call2 "np.divmod" [x, y]).1) with
+      | none => simp [divmodProg, runProg, step, getArrs, ha, hb, hn1] at h
+      | some n1 =>
+        cases hn2 : dtypeToStr (np.dtypeOf (np.call2 "np.divmod" [x, y]).2) with
+        | none => simp [divmodProg, runProg, step, getArrs, ha, hb, hn1, hn2] at h
+        | some n2 =>
+          simp [divmodProg, runProg, step, getArrs, getFlds, ha, hb, hn1, hn2] at h
+          obtain ⟨rfl, -⟩ := h
+          refine ⟨?_, by simp⟩
+          intro id hid
+          have h1 : ¬ w.next = id := by omega
+          have h2 : ¬ w.next + 1 = id := by omega
+          simp [h1, h2]
+
+theorem lookup_helperOf (op : String) :
+    lookupProg (helperOf op) = some (2, if op = "divmod" then divmodProg else binaryProg) := by
+  unfold helperOf
+  by_cases h : op = "divmod"
+  · simp [h, lookup_divmod]
+  · simp [h, lookup_binary]
 
 end Exetera.FieldOps
